@@ -764,8 +764,8 @@ pub fn check_c15<F: Real>(a: &MP, b: &MP, op: Op, run: &SweepRun<F>, st: &mut Sw
 fn mk_left<F: Real>(s: Seg, subj: bool, id: u32) -> (Ev<F>, Ev<F>) {
     let s = norm_seg(s);
     let c = |p: Pt| Coord { x: F::from64(p.0), y: F::from64(p.1) };
-    let right = SweepEvent::new_rc(id, c(s.1), false, std::rc::Weak::new(), subj, true);
-    let left = SweepEvent::new_rc(id, c(s.0), true, Rc::downgrade(&right), subj, true);
+    let right = SweepEvent::new_rc(id as _, c(s.1), false, std::rc::Weak::new(), subj, true);
+    let left = SweepEvent::new_rc(id as _, c(s.0), true, Rc::downgrade(&right), subj, true);
     right.set_other_event(&left);
     (left, right)
 }
